@@ -121,11 +121,21 @@ type c14Rec struct {
 	bufs   [2][]byte
 	skip   [2]int
 	frames []c14Frame
+	frozen bool // the observation window is over (teardown traffic is not part of the trace)
+}
+
+func (r *c14Rec) freeze() {
+	r.mu.Lock()
+	r.frozen = true
+	r.mu.Unlock()
 }
 
 func (r *c14Rec) tap(dir int, b []byte) {
 	r.mu.Lock()
 	defer r.mu.Unlock()
+	if r.frozen {
+		return
+	}
 	if r.skip[dir] > 0 {
 		n := r.skip[dir]
 		if n > len(b) {
@@ -905,6 +915,10 @@ func c14Exec(ops []string, o *vu.Out) {
 			case <-watchdog.C:
 				timedOut = true
 			}
+		}
+		if timedOut {
+			// what Close() sends while tearing the hung exchange down is not an observation
+			rec.freeze()
 		}
 		if timedOut && os.Getenv("C14_DUMP") != "" {
 			buf := make([]byte, 1<<20)
